@@ -397,6 +397,7 @@ def c03Line (st : State) (w : List String) : Option (State × String) :=
       let r := readFailingStream st.world st.cfg d readFuel
       some (st.withCfg r.cfg, s!"0 {showLog r.dtorLog}")
     | none => some (st, "bad-op")
+  | ["probe_badfile", _] => some (st, "probe")       -- never compared
   | ["read_file_ioerr", p] =>
     match unhex p with
     | some p =>
